@@ -117,13 +117,27 @@ def cases(draw, tier, det):
             r = draw(repr_spec(p, integral, D.INDEX_KINDS + D.TZ_INDEX_KINDS, D.UNIQUE_COLUMN_KINDS))  # pandas alignment needs unique labels
             r["container"] = draw(st.sampled_from(["DataFrame"] + (["Series"] if p == 1 else [])))
             r2 = dict(r, dtype=draw(st.sampled_from(["float64", "int64"])) if integral else "float64")
+            if r["index"]["kind"] in ("datetime_D", "datetime_h", "datetime_B", "datetime_MS") and draw(st.integers(0, 1)) == 0:
+                # the same instants stored in another resolution than the history's (never the same non-default resolution on
+                # both sides: pandas 2.3.3 itself returns a wrong DatetimeIndex.union there, see DESIGN.md 5)
+                unit = draw(st.sampled_from(["s", "ms", "us"]))
+                if draw(st.integers(0, 1)) == 0:
+                    r2["index"] = dict(r["index"], unit=unit)
+                else:
+                    r["index"] = dict(r["index"], unit=unit)
+                    r2["index"] = dict(r["index"], unit="ns")
             # 1-3 chunks; each continues the data seen so far, overlaps its last 1-2 rows, or leaves a gap, and has its own
             # value family: a whole-numbered chunk may arrive as int64 although the earlier data were fractional floats
             plan = []
             for _ in range(draw(st.integers(1, 3))):
                 whole = draw(st.sampled_from([True, True, False]))
-                plan.append({"n": draw(st.integers(1, 8)), "delta": draw(st.sampled_from([0, 0, -1, -2, 2])), "integral": whole,
+                # delta: where the chunk starts relative to the end of the data seen so far; "gap" = inside the first gap an
+                # earlier chunk left (late delivery of missing rows: labels not seen before that sort before known ones)
+                plan.append({"n": draw(st.integers(1, 8)), "delta": draw(st.sampled_from([0, 0, -1, -2, 2, 2, "gap"])), "integral": whole,
                              "dtype": draw(st.sampled_from(["int64", "int64", "float64"])) if whole else "float64"})
+            if draw(st.integers(0, 3)) == 0:
+                # late rows: a chunk after a gap of 1-3 labels, then the missing rows (all of them or the first ones)
+                plan = [dict(plan[0], delta=draw(st.integers(1, 3))), dict(plan[-1], delta="gap", n=draw(st.integers(1, 3)))] + plan[1:-1]
             case["update_plan"] = plan
         case["update_mode"] = mode
         case["reprs"] = {"fit": r, "update": r2}
@@ -153,9 +167,22 @@ def cases(draw, tier, det):
                 r_["bool_col"] = indicator["col"]
     if n2 is not None and "update_plan" in case:
         case["updates"] = []
+        end, gaps = n, []
         for u in case.pop("update_plan"):
+            if u["delta"] == "gap":
+                if gaps:
+                    off, u["n"] = gaps[0][0], min(u["n"], gaps[0][1] - gaps[0][0])
+                    gaps[0] = (off + u["n"], gaps[0][1])
+                    gaps = [g for g in gaps if g[1] > g[0]]
+                else:
+                    off = end
+            else:
+                off = max(0, end + u["delta"])
+                if off > end:
+                    gaps.append((end, off))
             Xu, _ = draw(D.structured_matrix(u["n"], p, exact=u["integral"], max_shifts=1, max_spikes=1, max_bumps=1))
-            case["updates"].append({"X": Xu, "delta": u["delta"], "dtype": u["dtype"]})
+            case["updates"].append({"X": Xu, "off": off, "dtype": u["dtype"], "fills_gap": u["delta"] == "gap" and off < end})
+            end = max(end, off + u["n"])
     elif n2 is not None:
         case["X_update"], _ = draw(D.structured_matrix(n2, p, exact=integral, max_shifts=1, max_spikes=1, max_bumps=1))
     if nt is not None:
@@ -180,12 +207,12 @@ def run_history(case, canonical_run):
     if "updates" in case:
         end = n_train
         for u in case["updates"]:
-            off = max(0, end + u["delta"])
+            off = u["off"] if "off" in u else max(0, end + u["delta"])  # (replays of earlier versions store `delta`)
+            end = max(end, off + len(u["X"]))
             if canonical_run:
                 det.update(canonical(u["X"], off))
             else:
                 det.update(represent(u["X"], dict(R["update"], dtype=u["dtype"]), off))
-            end = max(end, off + len(u["X"]))
     elif "X_update" in case:
         if canonical_run:
             off = 0 if case["update_mode"] == "arrays" else n_train
@@ -266,8 +293,19 @@ def check(case):
         classes.append(f"update_mode={case['update_mode']}")
     if "updates" in case:
         classes.append(f"update_chunks={len(case['updates'])}")
-        if any(u["delta"] < 0 for u in case["updates"]):
-            classes.append("overlapping_chunk")
+        if any(isinstance(u.get("delta"), int) and u["delta"] < 0 for u in case["updates"]):
+            classes.append("overlapping_chunk")  # (replays of earlier versions)
+        end = len(case["X"])
+        for u in case["updates"]:
+            if "off" in u:
+                classes.append("overlapping_chunk" if u["off"] < end and not u.get("fills_gap") else
+                               "chunk_fills_an_earlier_gap" if u.get("fills_gap") else "chunk_after_a_gap" if u["off"] > end else "contiguous_chunk")
+                end = max(end, u["off"] + len(u["X"]))
+        units = {R[k]["index"].get("unit", "ns") for k in ("fit", "update") if k in R}
+        if len(units) > 1:
+            classes.append("history_and_chunk_in_different_datetime_resolutions")
+        if R["fit"]["index"]["kind"] in ("datetime_B", "datetime_MS"):
+            classes.append("calendar_frequency_index")
         if any(u["dtype"] == "int64" for u in case["updates"]) and not case["integral"]:
             classes.append("int64_chunk_after_fractional_data")
     if any(r["dtype"] == "int64" for r in R.values()):
